@@ -117,6 +117,60 @@ def generate(R, tier):
         elif r < 0.07 and spec["v"] == 4:
             spec["frag"] = 5
         yield {"stream": "db", "md": md, "syn_mss": syn_mss, "spec": spec, "lines": lines, "secs": secs}
+    # IPv4 options lengthen the IP header: the `mtu*N` window form counts the REAL header lengths (mss + IP header + TCP header)
+    made = 0
+    while made < n // 25:
+        spec, p, ty = G.rand_wire_pkt(R, flags=R.choice([2, 0x12]))
+        if not spec["ipopts"] or p["mss"] <= 0 or (spec["flags"] & 0x17) not in (2, 0x12):
+            continue
+        made += 1
+        md = G.rand_md(R)
+        p["syn_mss"] = syn_mss = R.choice([0, 1460]) if ty == 0x12 else 0
+        k = R.choice([1, 2, 3, 4, 5, 10])
+        w = (p["mss"] + p["hdr"]) * k
+        p["win"] = spec["win"] = w if w <= 65535 else p["mss"] + p["hdr"]
+        if p["win"] > 65535:
+            continue
+        lines, secs = make_db(R, p, md, ty)
+        yield {"stream": "db-ipopts-mtu-window", "md": md, "syn_mss": syn_mss, "spec": spec, "lines": lines, "secs": secs}
+    for c in witness_db_cases(R, n // 12):
+        yield c
+
+
+def witness_db_cases(R, count):
+    """Multi-record databases for packets with HOSTILE option areas (C03's generator: wrong lengths, unknown kinds, garbage behind a
+    well-formed prefix).  The records are written from what the VERIFIED extractor reads from the bytes (asked at generation time), so the
+    record that describes the packet in full (whole layout, `bad` quirk ...) is in the file, among near misses, and must be the one found."""
+    from harness import core, findings
+    from harness.props import c03
+    pend = []
+    for _ in range(count * 2):
+        spec, _, ty = G.rand_wire_pkt(R, flags=R.choice([2, 0x12]))
+        if (spec["flags"] & 0x17) not in (2, 0x12):
+            continue
+        spec["mf"], spec["frag"] = False, 0
+        spec["opts"] = c03.hostile_opts(R)
+        if findings.scapy_ao_short(bytes.fromhex(spec["opts"])):
+            continue
+        syn_mss = R.choice([0, 0, 1460, 536]) if ty == 0x12 else 0
+        pend.append((spec, ty, syn_mss))
+    try:
+        res = core.run_model(["extract %d %d %s" % (W.full(sp)["v"], sm, W.build(sp).hex()) for sp, _, sm in pend])
+    except Exception:
+        return
+    made = 0
+    for (spec, ty, syn_mss), r in zip(pend, res):
+        if made >= count or not (isinstance(r, dict) and isinstance(r.get("ok"), dict) and "psig" in r["ok"]):
+            continue
+        p = dict(r["ok"]["psig"])
+        md = G.rand_md(R)
+        p["win"] = spec["win"] = G.aim_window(R, p)
+        try:
+            lines, secs = make_db(R, p, md, ty)
+        except Exception:
+            continue
+        made += 1
+        yield {"stream": "db-hostile-options", "md": md, "syn_mss": syn_mss, "spec": spec, "lines": lines, "secs": secs}
 
 
 def single_record_cases(R, count, stream="api"):
